@@ -149,6 +149,8 @@ func (p *Protocol) downloadBlockFromPeerOld(height int64, pid peer.ID) (*types.B
 		return nil, err
 	}
 	defer stream.Close()
+	// a peer that accepts the stream but never answers must not block this worker forever
+	_ = stream.SetDeadline(time.Now().Add(time.Second * 30))
 	blockReq := types.MessageGetBlocksReq{
 		Message: &types.P2PGetBlocks{
 			StartHeight: height,
